@@ -18,7 +18,8 @@ vars == <<c>>
 V(t, x) == <<t, x>>
 P(k, v) == <<k, v>>
 F1 == [id |-> "none", gt |-> 1, geom |-> 1, props |-> << P("k", V("s", "x")) >>]
-F2 == [id |-> "7", gt |-> 3, geom |-> 2, props |-> << P("j", V("b", "1")), P("k", V("n", "5")) >>]
+\* (numbers at the ends of the 64-bit ranges: -2^62 - 1 needs all 64 bits of its zigzag form)
+F2 == [id |-> "7", gt |-> 3, geom |-> 2, props |-> << P("j", V("b", "1")), P("k", V("n", "5")), P("m", V("n", "-4611686018427387905")) >>]
 F3 == [id |-> "18446744073709551615", gt |-> 0, geom |-> 3, props |-> << P("j", V("n", "-3")), P("m", V("s", "x")) >>]
 F0 == [id |-> "3", gt |-> 2, geom |-> 4, props |-> <<>>]          \* a feature without any property
 Pool == IF PoolSize = 2 THEN <<F0, F2>> ELSE IF PoolSize = 3 THEN <<F0, F1, F2>> ELSE <<F0, F1, F2, F3>>
@@ -33,7 +34,7 @@ TileOpts(ext) == { MkTile(la, lb, ext) : la \in LayerOpt, lb \in LayerOpt }
 (* ------------------------------ update ------------------------------ *)
 U1 == [id |-> "none", gt |-> 1, geom |-> 1, props |-> << P("id", V("s", "r1")), P("k", V("s", "old")) >>]
 U2 == [id |-> "0", gt |-> 2, geom |-> 2, props |-> << P("id", V("n", "5")), P("pop", V("n", "1")) >>]
-U3 == [id |-> "18446744073709551615", gt |-> 3, geom |-> 3, props |-> << P("k", V("s", "noid")) >>]
+U3 == [id |-> "18446744073709551615", gt |-> 3, geom |-> 3, props |-> << P("k", V("s", "noid")), P("m", V("n", "-9223372036854775808")), P("u", V("n", "18446744073709551615")) >>]
 U4 == [id |-> "4", gt |-> 0, geom |-> 4, props |-> << P("id", V("s", "zz")), P("k", V("b", "0")) >>]
 UPool == <<U1, U2, U3, U4>>
 USeqs == { <<UPool[i], UPool[j]>> : i \in 1..4, j \in 1..4 } \cup { <<UPool[i]>> : i \in 1..4 } \cup { <<U1, U2, U3, U4>> }
